@@ -58,8 +58,8 @@ def _pair_calls(I, thunk):
     for fn, args, kwargs in log:
         if isinstance(fn, Closure) and fn.cls is not None and args and not is_pairs(args[0]) and len(args) == 2:
             continue                 # the unbound form of a method call already logged in its bound form
-        if len(args) == 1 and not kwargs and is_pairs(args[0]):
-            out.append(fn)
+        if args and is_pairs(args[0]) and not any(is_pairs(x) for x in list(args[1:]) + list(kwargs.values())):
+            out.append(fn)          # (further arguments - options, tolerances - do not change the role)
     return out
 
 
